@@ -255,7 +255,7 @@ func c10Items() []regItem {
 }
 
 func nearMisses(name string) []string {
-	out := []string{name + "/", strings.ToUpper(name), strings.TrimPrefix(name, "/"), name + "x", "x" + name, name + "_", strings.Replace(name, "_", "/", 1), strings.Replace(name, "/", "_", 2), strings.Replace(name, ".", "_", 1)}
+	out := []string{name + "/", "/" + name, strings.Replace(name, "/", "/./", 1), "/x/.." + name, strings.Replace(name, "/", "//", 2), strings.ToUpper(name), strings.TrimPrefix(name, "/"), name + "x", "x" + name, name + "_", strings.Replace(name, "_", "/", 1), strings.Replace(name, "/", "_", 2), strings.Replace(name, ".", "_", 1)}
 	if len(name) > 1 {
 		out = append(out, name[:len(name)-1], name[1:])
 	}
@@ -267,10 +267,15 @@ func nearMisses(name string) []string {
 
 // c10Route: register every ordered pair of items under a choice of groups; then request every returned name and near-miss.
 func c10Route(p Params) func() {
+	proto := p.Get("proto", "raw")
 	return func() {
 		begin()
 		items := c10Items()
 		mapperIdx := vsched.Choose(2, "mapper")
+		if proto == "http" && mapperIdx == 1 {
+			world.Counter("not_representable") // the HTTP-style protocol carries URL paths
+			return
+		}
 		if mapperIdx == 1 {
 			erpc.SetServiceMethodMapper(erpc.RPCServiceMethodMapper)
 		}
@@ -392,7 +397,7 @@ func c10Route(p Params) func() {
 			})
 		}
 		cli := world.NewPeer("json")
-		cs, _, _ := world.Connect(cli, srv, nil)
+		cs, _, _ := world.Connect(cli, srv, world.Proto(proto))
 		reqs := map[string]bool{}
 		for n := range owner {
 			reqs[n] = true
@@ -408,6 +413,9 @@ func c10Route(p Params) func() {
 		}
 		var names []string
 		for n := range reqs {
+			if proto == "http" && (!strings.HasPrefix(n, "/") || strings.HasPrefix(n, "//") || strings.ContainsAny(n, " ?#%")) {
+				continue // not a URL path
+			}
 			if n != "" && len(n) < 200 {
 				names = append(names, n)
 			}
@@ -435,6 +443,10 @@ func c10Route(p Params) func() {
 				} else if st.Code() != erpc.CodeNotFound {
 					vsched.Failf("CALL of the unregistered name %q returned %s, want 404 | %s", n, world.StatStr(st), ctxt)
 				}
+			}
+			if proto == "http" {
+				world.Counter("requests")
+				continue // no PUSH in the HTTP-style protocol
 			}
 			// as PUSH
 			c10ran = nil
